@@ -1,11 +1,16 @@
 import Shentu.Proofs.BankLemmas
 import Shentu.Model.Cvm
 import Shentu.Proofs.Tactics
+import Shentu.Gen.Wiring
 /-
   C19 — Locked coins stay locked until the designated unlocker releases them.
 -/
 namespace Shentu.Props.C19
 open Shentu Shentu.Vesting
+
+/-- tie (regenerated on every run): the lock check of a VM call carrying value reads the spendable amount of the denomination the
+    VM moves — the staking bond denomination, not a constant that happens to equal it under the default configuration -/
+theorem tie_spendable_denomination : Gen.Wiring.cvmSpendableDenom_found = true ∧ Gen.Wiring.cvmSpendableDenom = ["k.sk.BondDenom(ctx)"] := by decide
 
 theorem denoms_single (d : Denom) (x : Int) : d ∈ Coins.denoms [(d, x)] := by
   unfold Coins.denoms; rw [List.mem_eraseDups]; simp
